@@ -149,7 +149,7 @@ fn main() {
         let src = format!("min x\ns.t.\n    x >= 1\nwhere\n    let k = {c}\n    let z = 2\ndefine\n    x as Real");
         check_program(&src, &mut rep, "consts");
     }
-    let decls = ["x as Real", "x as Real(0, 3)", "x as Real(-1.5, Infinity)", "x as Real(MinusInfinity, 2)", "x as NonNegativeReal", "x as NonNegativeReal(1, 2)", "x as Boolean", "x as IntegerRange(-2, 5)", "x as IntegerRange(n, n + 3)", "x as Real(A[0], A[1] * 2)", "x_i as Real for i in 0..3", "x_i as Boolean for i in A", "x_i_j as Real for i in 0..2, j in 1..=2", "x_u as Real for (u, v) in edges(G)", "x_i as IntegerRange(0, i + 1) for (e, i) in enumerate(A)", "x, y as Real\n    z as Boolean"];
+    let decls = ["x as Real(5)", "x as Real(-2.5)", "x as NonNegativeReal(3)", "x as Real(n)", "x as Real", "x as Real(0, 3)", "x as Real(-1.5, Infinity)", "x as Real(MinusInfinity, 2)", "x as NonNegativeReal", "x as NonNegativeReal(1, 2)", "x as Boolean", "x as IntegerRange(-2, 5)", "x as IntegerRange(n, n + 3)", "x as Real(A[0], A[1] * 2)", "x_i as Real for i in 0..3", "x_i as Boolean for i in A", "x_i_j as Real for i in 0..2, j in 1..=2", "x_u as Real for (u, v) in edges(G)", "x_i as IntegerRange(0, i + 1) for (e, i) in enumerate(A)", "x, y as Real\n    z as Boolean"];
     for d in decls.iter() {
         let src = format!("min 1\ns.t.\n    1 >= 0\nwhere\n    let n = 2\n    let A = [1, 2, 3]\n    let G = Graph {{ A -> [B: 2], B -> [A] }}\ndefine\n    {d}");
         check_program(&src, &mut rep, "decls");
